@@ -5,9 +5,10 @@ reads /tmp/seed/out_<PROP>/{A,B}.diff, demo_{A,B}.py, notes.md; writes /verif/se
 import json, os, shutil, subprocess, sys, time
 prop, m = sys.argv[1], sys.argv[2]
 extra = sys.argv[3:]
-src = "/tmp/seed/out_%s" % prop
-wt = "/tmp/rw/confirm_%s%s" % (prop, m)
-dst = "/verif/seeded/%s-%s" % (prop, m)
+rnd = os.environ.get("SEED_ROUND", "")          # "" = round 1, "2" = round 2 …
+src = "/tmp/seed/out%s_%s" % (rnd, prop)
+wt = "/tmp/rw/confirm%s_%s%s" % (rnd, prop, m)
+dst = "/verif/seeded/%s-%s%s" % (prop, m, rnd)
 def sh(cmd, **kw):
     p = subprocess.run(cmd, shell=True, stdout=subprocess.PIPE, stderr=subprocess.STDOUT, text=True, **kw)
     return p.returncode, p.stdout
